@@ -1,5 +1,6 @@
 import SF.Props.C02
 import SF.Lemmas.SpecFacts
+import SF.Lemmas.Cog
 /-
   C03 — Finite memory: windowed views forget everything older than the window.
   For two histories of possibly different lengths (each at least K long) that agree on their last K values, the view
@@ -44,6 +45,15 @@ theorem min_suffix (N : Nat) (hN : 0 < N) (xs ys : List α) (h : lastN N xs = la
 theorem max_suffix (N : Nat) (hN : 0 < N) (xs ys : List α) (h : lastN N xs = lastN N ys) :
     (maxCoreU (α := α) N).outAfter xs = (maxCoreU (α := α) N).outAfter ys := by
   rw [C02.max_eq N hN, C02.max_eq N hN]; simp [Spec.wmax, h]
+
+theorem hln_suffix (N : Nat) (hN : 0 < N) (xs ys : List α) (hx : N ≤ xs.length) (hy : N ≤ ys.length)
+    (h : lastN N xs = lastN N ys) : (hlnCore (α := α) N).outAfter xs = (hlnCore (α := α) N).outAfter ys := by
+  rw [C02.hln_eq N hN, C02.hln_eq N hN]
+  simp [Spec.hln, h, getLast_eq N hN xs ys hx hy h]
+
+theorem cog_suffix (N : Nat) (hN : 0 < N) (xs ys : List α) (h : lastN N xs = lastN N ys) :
+    (cogCore (α := α) N).outAfter xs = (cogCore (α := α) N).outAfter ys := by
+  rw [Cog.outAfter_eq N hN, Cog.outAfter_eq N hN]; simp [Spec.cog, h]
 
 section welford
 variable [Transc α]
